@@ -36,6 +36,51 @@ Proof.
   cbn in Hv. rewrite Hv. reflexivity.
 Qed.
 
+(** the iterator does not deliver a value next: the end of the words, or a key word *)
+Definition no_value_ahead (cur : it) : Prop :=
+  match next false cur with
+  | Ok None => True
+  | Ok (Some (EVal _, _)) => False
+  | Ok (Some _) => True
+  | _ => False
+  end.
+
+(** the remaining words start with a key word (or there are none): what may
+    follow an argument with an optional value that is given without one *)
+Definition nva (ws : list str) : Prop :=
+  match ws with
+  | [] => True
+  | w :: _ => exists x r, w = DASH :: x :: r /\ (x <> DASH \/ r <> [])
+  end.
+
+Lemma nva_no_value ws : nva ws -> no_value_ahead (bw ws).
+Proof.
+  unfold no_value_ahead. destruct ws as [|w ws']; cbn [nva]; [intros _; reflexivity|].
+  intros (x & r & -> & H). destruct (N.eq_dec x DASH) as [->|Hx].
+  - destruct H as [H|H]; [congruence|]. rewrite next_long by exact H.
+    destruct (index_of EQSIGN r); exact I.
+  - pose proof (next_grp [] x r ws' Hx) as E. unfold grp_pos, grp_word in E. cbn [app] in E. rewrite E. exact I.
+Qed.
+
+Lemma grp_no_value pre ch ch' post ws : ch' <> DASH -> no_value_ahead (grp_after pre ch (ch' :: post) ws).
+Proof.
+  intros H. unfold no_value_ahead. rewrite grp_after_rest. cbn [grp_rest]. rewrite (next_grp _ ch' post ws H). exact I.
+Qed.
+
+(** the value behind "=", whoever asks *)
+Lemma next_eq_value_any rem w v ws :
+  next rem (mk ((DASH :: DASH :: w ++ EQSIGN :: v) :: ws) (1 + length w + 2) true false)
+  = Ok (Some (EVal v, bw ws)).
+Proof.
+  unfold next, mk, bw. cbn [rest cpos nextval dashed next_words orb].
+  unfold cstr_at. cbn [length]. rewrite app_length. cbn [length].
+  replace (1 + length w + 2 <=? S (S (length w + S (length v)))) with true
+    by (symmetry; apply Nat.leb_le; lia).
+  cbn [bind]. replace (1 + length w + 2) with (S (S (length w + 1))) by lia. cbn [skipn].
+  rewrite skipn_app. replace (length w + 1 - length w) with 1 by lia.
+  rewrite skipn_all2 by lia. cbn. reflexivity.
+Qed.
+
 Section Gen.
 Variable I : Type.
 Variable St : Type.
@@ -68,7 +113,7 @@ Fixpoint gfold (s : St) (us : list (guse I)) : res St :=
   | u :: r => do s1 <- ustep s u; gfold s1 r
   end.
 
-Variables (lname : I -> str -> Prop) (sname : I -> N -> Prop) (tnone treq : I -> Prop).
+Variables (lname : I -> str -> Prop) (sname : I -> N -> Prop) (tnone treq topt : I -> Prop).
 
 Hypothesis lname_shape : forall i w, lname i w -> w <> [] /\ index_of EQSIGN w = None.
 Hypothesis sname_shape : forall i ch, sname i ch -> ch <> DASH.
@@ -82,6 +127,18 @@ Hypothesis H_lval : forall s i w cur v it2, Sinv s -> lname i w -> treq i ->
   estep s (EStr w) cur = do s1 <- ustep s (GVal i v); Ok (AConsumed, s1, it2).
 Hypothesis H_sval : forall s i ch cur v it2, Sinv s -> sname i ch -> treq i ->
   next true cur = Ok (Some (EVal v, it2)) ->
+  estep s (EChar ch) cur = do s1 <- ustep s (GVal i v); Ok (AConsumed, s1, it2).
+(** an argument with an optional value (level counter): used as a flag when no
+    value follows, with the value when one does *)
+Hypothesis H_lopt_none : forall s i w cur, Sinv s -> lname i w -> topt i -> no_value_ahead cur ->
+  estep s (EStr w) cur = do s1 <- ustep s (GFlag i); Ok (AConsumed, s1, cur).
+Hypothesis H_sopt_none : forall s i ch cur, Sinv s -> sname i ch -> topt i -> no_value_ahead cur ->
+  estep s (EChar ch) cur = do s1 <- ustep s (GFlag i); Ok (AConsumed, s1, cur).
+Hypothesis H_lopt_val : forall s i w cur v it2, Sinv s -> lname i w -> topt i ->
+  next false cur = Ok (Some (EVal v, it2)) ->
+  estep s (EStr w) cur = do s1 <- ustep s (GVal i v); Ok (AConsumed, s1, it2).
+Hypothesis H_sopt_val : forall s i ch cur v it2, Sinv s -> sname i ch -> topt i ->
+  next false cur = Ok (Some (EVal v, it2)) ->
   estep s (EChar ch) cur = do s1 <- ustep s (GVal i v); Ok (AConsumed, s1, it2).
 (** a free value: consumed (iterator unchanged) or unknown = the error of the loop *)
 Hypothesis H_free : forall s v cur, Sinv s ->
@@ -109,6 +166,17 @@ Inductive gspell : list (guse I) -> list str -> Prop :=
 | gsp_short_sep : forall fs i ch v us ws,
     gflags_ok fs -> sname i ch -> treq i -> sep_value v -> gspell us ws ->
     gspell (map (fun p => GFlag (fst p)) fs ++ GVal i v :: us) ((DASH :: map snd fs ++ [ch]) :: v :: ws)
+| gsp_long_opt_none : forall i w us ws,
+    lname i w -> topt i -> nva ws -> gspell us ws -> gspell (GFlag i :: us) ((DASH :: DASH :: w) :: ws)
+| gsp_long_opt_eq : forall i w v us ws,
+    lname i w -> topt i -> gspell us ws -> gspell (GVal i v :: us) ((DASH :: DASH :: w ++ EQSIGN :: v) :: ws)
+| gsp_long_opt_sep : forall i w v us ws,
+    lname i w -> topt i -> sep_value v -> gspell us ws -> gspell (GVal i v :: us) ((DASH :: DASH :: w) :: v :: ws)
+| gsp_short_opt_rep : forall i ch n us ws,
+    sname i ch -> topt i -> nva ws -> gspell us ws ->
+    gspell (repeat (GFlag i) (S n) ++ us) ((DASH :: repeat ch (S n)) :: ws)
+| gsp_short_opt_sep : forall i ch v us ws,
+    sname i ch -> topt i -> sep_value v -> gspell us ws -> gspell (GVal i v :: us) ([DASH; ch] :: v :: ws)
 | gsp_free : forall v us ws,
     sep_value v -> gspell us ws -> gspell (GFree v :: us) (v :: ws)
 | gsp_ddash : forall vs,
@@ -189,11 +257,36 @@ Proof.
     destruct (ustep s (GFree v)) eqn:E; cbn [bind]; auto. apply IH; auto. eapply ustep_inv; eauto.
 Qed.
 
+(** -vvv : the same optional-value key several times behind one dash *)
+Lemma grun_opt_rep i ch ws : sname i ch -> topt i -> nva ws -> forall n pre s f, Sinv s ->
+  grun s (S n + f) (grp_rest pre (repeat ch (S n)) ws) =
+  do s1 <- gfold s (repeat (GFlag i) (S n)); grun s1 f (bw ws).
+Proof.
+  intros Hs Ht Hw. pose proof (sname_shape _ _ Hs) as Hd.
+  induction n as [|n IH]; intros pre s f Hi.
+  - cbn [repeat grp_rest Nat.add gfold].
+    rewrite (grun_consumed s f _ (EChar ch) (grp_after pre ch [] ws) (ustep s (GFlag i)) (grp_after pre ch [] ws)).
+    + destruct (ustep s (GFlag i)); cbn [bind]; auto.
+    + apply next_grp. exact Hd.
+    + apply H_sopt_none; auto. unfold grp_after. apply nva_no_value. exact Hw.
+  - change (repeat ch (S (S n))) with (ch :: repeat ch (S n)).
+    change (repeat (GFlag i) (S (S n))) with (GFlag i :: repeat (GFlag i) (S n)).
+    cbn [grp_rest gfold]. change (S (S n) + f) with (S (S n + f)).
+    rewrite (grun_consumed s (S n + f) _ (EChar ch) (grp_after pre ch (repeat ch (S n)) ws) (ustep s (GFlag i))
+               (grp_after pre ch (repeat ch (S n)) ws)).
+    + destruct (ustep s (GFlag i)) eqn:E; cbn [bind]; auto.
+      rewrite grp_after_rest. apply IH. eapply ustep_inv; eauto.
+    + apply next_grp. exact Hd.
+    + apply H_sopt_none; auto. cbn [repeat]. apply grp_no_value. exact Hd.
+Qed.
+
 Theorem gspell_run us ws :
   gspell us ws -> forall s f, Sinv s -> grun s (length us + f) (bw ws) = gfold s us.
 Proof.
   induction 1 as [|i w us ws Hl Hn Hsp IH|i w v us ws Hl Hr Hsp IH|i w v us ws Hl Hr Hv Hsp IH
                   |fs us ws Hne Hf Hsp IH|fs i ch v us ws Hf Hs Hr Hv Hsp IH|fs i ch v us ws Hf Hs Hr Hv Hsp IH
+                  |i w us ws Hl Ht Hw Hsp IH|i w v us ws Hl Ht Hsp IH|i w v us ws Hl Ht Hv Hsp IH
+                  |i ch n us ws Hs Ht Hw Hsp IH|i ch v us ws Hs Ht Hv Hsp IH
                   |v us ws Hv Hsp IH|vs Hvs];
     intros s f Hi.
   - apply grun_end.
@@ -245,6 +338,40 @@ Proof.
     + destruct (ustep s1 (GVal i v)) eqn:E2; cbn [bind]; auto. apply IH. eapply ustep_inv; eauto.
     + apply next_grp. eapply sname_shape; eauto.
     + apply H_sval; auto. unfold grp_after. apply next_sep_value. exact Hv.
+  - (* --opt, no value follows *)
+    cbn [length Nat.add gfold]. destruct (lname_shape _ _ Hl) as (Hw0 & He).
+    rewrite (grun_consumed s (length us + f) _ (EStr w) (bw ws) (ustep s (GFlag i)) (bw ws)).
+    + destruct (ustep s (GFlag i)) eqn:E; cbn [bind]; auto. apply IH. eapply ustep_inv; eauto.
+    + rewrite next_long by assumption. rewrite He. reflexivity.
+    + apply H_lopt_none; auto. apply nva_no_value. exact Hw.
+  - (* --opt=v *)
+    cbn [length Nat.add gfold]. destruct (lname_shape _ _ Hl) as (Hw0 & He).
+    rewrite (grun_consumed s (length us + f) _ (EStr w)
+               (mk ((DASH :: DASH :: w ++ EQSIGN :: v) :: ws) (1 + length w + 2) true false)
+               (ustep s (GVal i v)) (bw ws)).
+    + destruct (ustep s (GVal i v)) eqn:E; cbn [bind]; auto. apply IH. eapply ustep_inv; eauto.
+    + rewrite next_long by (destruct w; discriminate).
+      rewrite (index_of_app_eq w v He), firstn_app_exact. reflexivity.
+    + apply H_lopt_val; auto. apply next_eq_value_any.
+  - (* --opt v *)
+    cbn [length Nat.add gfold]. destruct (lname_shape _ _ Hl) as (Hw0 & He).
+    rewrite (grun_consumed s (length us + f) _ (EStr w) (bw (v :: ws)) (ustep s (GVal i v)) (bw ws)).
+    + destruct (ustep s (GVal i v)) eqn:E; cbn [bind]; auto. apply IH. eapply ustep_inv; eauto.
+    + rewrite next_long by assumption. rewrite He. reflexivity.
+    + apply H_lopt_val; auto. apply next_sep_value. exact Hv.
+  - (* -vvv *)
+    rewrite app_length, repeat_length, <- Nat.add_assoc.
+    assert (E : bw ((DASH :: repeat ch (S n)) :: ws) = grp_rest [] (repeat ch (S n)) ws) by reflexivity.
+    rewrite E, (grun_opt_rep i ch ws Hs Ht Hw n [] s (length us + f) Hi), gfold_app.
+    destruct (gfold s (repeat (GFlag i) (S n))) eqn:Eg; cbn [bind]; auto. apply IH. eapply gfold_inv; eauto.
+  - (* -v 3 *)
+    cbn [length Nat.add gfold]. pose proof (sname_shape _ _ Hs) as Hd.
+    assert (E : bw ([DASH; ch] :: v :: ws) = grp_rest [] [ch] (v :: ws)) by reflexivity.
+    rewrite E. cbn [grp_rest].
+    rewrite (grun_consumed s (length us + f) _ (EChar ch) (grp_after [] ch [] (v :: ws)) (ustep s (GVal i v)) (bw ws)).
+    + destruct (ustep s (GVal i v)) eqn:E2; cbn [bind]; auto. apply IH. eapply ustep_inv; eauto.
+    + apply next_grp. exact Hd.
+    + apply H_sopt_val; auto. unfold grp_after. apply next_sep_value. exact Hv.
   - cbn [length Nat.add gfold].
     rewrite (grun_free s (length us + f) _ v (bw ws) Hi (next_sep_value v ws false Hv)).
     destruct (ustep s (GFree v)) eqn:E; cbn [bind]; auto. apply IH. eapply ustep_inv; eauto.
@@ -258,7 +385,7 @@ Ltac first_dash_word :=
 
 Lemma gfirst_spelled us ws : gspell us ws -> first ws = next false (bw ws).
 Proof.
-  intros H. destruct H as [| | | |fs ? ? Hne ? ?|fs ? ? ? ? ? ? ? ? ?|fs ? ? ? ? ? ? ? ? ?|v us ws Hv Hsp|vs Hvs].
+  intros H. destruct H as [| | | |fs ? ? Hne ? ?|fs ? ? ? ? ? ? ? ? ?|fs ? ? ? ? ? ? ? ? ?| | | | | |v us ws Hv Hsp|vs Hvs].
   - reflexivity.
   - first_dash_word.
   - first_dash_word.
@@ -266,6 +393,11 @@ Proof.
   - first_dash_word. destruct fs as [|[? ?] ?]; try congruence; reflexivity.
   - first_dash_word. destruct fs as [|[? ?] ?]; reflexivity.
   - first_dash_word. destruct fs as [|[? ?] ?]; reflexivity.
+  - first_dash_word.
+  - first_dash_word.
+  - first_dash_word.
+  - first_dash_word.
+  - first_dash_word.
   - rewrite (next_sep_value v ws false Hv). unfold first, rdc. cbn [Nat.leb bind].
     destruct v as [|x r]; cbn [nth].
     + cbn. reflexivity.
@@ -278,10 +410,10 @@ Proof. unfold words_size. induction vs as [|v r IH]; cbn [length fold_right]; li
 
 Lemma gspell_size us ws : gspell us ws -> length us <= words_size ws.
 Proof.
-  induction 1 as [| | | | | | | |vs Hvs].
-  9: { rewrite map_length. pose proof (words_size_length vs). unfold words_size in *. cbn [fold_right length]. lia. }
+  induction 1 as [| | | | | | | | | | | | |vs Hvs].
+  14: { rewrite map_length. pose proof (words_size_length vs). unfold words_size in *. cbn [fold_right length]. lia. }
   all: unfold words_size in *; cbn [length fold_right] in *;
-    repeat (rewrite ?app_length, ?map_length; cbn [length]); lia.
+    repeat (rewrite ?app_length, ?map_length, ?repeat_length; cbn [length]); lia.
 Qed.
 
 (** first + loop over the words of a legal spelling = fold over the uses *)
